@@ -14,6 +14,7 @@ from __future__ import annotations
 import ast
 
 from .. import terms as T
+from ..paths import unversion
 from ..evalstatic import SEval, Unknown
 from ..model import AnalysisError, stmt_text, walk_no_nested
 
@@ -270,9 +271,68 @@ def _equities(chk, ctx, mi) -> None:
     ok = any(isinstance(n, ast.Call) and isinstance(n.func, ast.Name) and n.func.id == 'sample' and any(k.arg == 'k' for k in n.keywords)
              for n in walk_no_nested(fi.node))
     chk.ob('C18.sampling', fi.qualname, ok, fi.loc, 'unknown cards are drawn without replacement from the unused deck cards')
+    # each sample starts from the given cards: the lists that are completed are copies (the caller's lists are reused by every sample)
+    m = ctx.m
+    recv = []
+    for p in ctx.paths(fi):
+        for e in p.events:
+            if e.kind == 'call' and e.term[0] == 'mcall' and e.term[2] == 'extend':
+                recv.append(unversion(e.term[1]))
+
+    def is_copy(t):
+        return T.mentions(t, lambda x: isinstance(x, tuple) and len(x) > 2 and ((x[0] == 'mcall' and x[2] == 'copy') or x == ('attr', ('name', 'list'), 'copy') or (x[0] == 'call' and x[1] in ('list', 'deepcopy', 'copy'))))
+    chk.ob('C18.sampling', f'{fi.qualname}:isolated', bool(recv) and all(is_copy(t) for t in recv), fi.loc,
+           'a sample completes copies of the given hole cards and board: no sample sees the cards drawn for another one (equities do not depend on sampling when all cards are given)',
+           got=[T.show(t)[:80] for t in recv if not is_copy(t)][:2])
+    loops = m.fors(fi.node, 'range(len(hole_cards))')
+    formula = 'hole_dealing_count * len(hole_cards) - sum(map(len, hole_cards)) + board_dealing_count - len(board_cards)'
+    ks = []
+    for n in walk_no_nested(fi.node):
+        if isinstance(n, ast.Call) and isinstance(n.func, ast.Name) and n.func.id == 'sample' and len(n.args) == 1 \
+                and T.norm(n.args[0]) == ('name', 'deck_cards'):
+            for k in n.keywords:
+                if k.arg == 'k':
+                    v = k.value
+                    if isinstance(v, ast.Name):
+                        ds = [a for a in walk_no_nested(fi.node) if isinstance(a, ast.Assign) and isinstance(a.targets[0], ast.Name) and a.targets[0].id == v.id]
+                        v = ds[0].value if len(ds) == 1 else v
+                    ks.append(v)
+    facts = {
+        'drawn at once, without replacement, as many cards as are missing (holes and board)': len(ks) == 1 and m.eq(T.norm(ks[0]), formula, fn=fi.node),
+        'first slice starts at 0': bool(m.full_assigns(fi.node, 'begin', '0')),
+        'board gets the rest': bool(m.calls(fi.node, 'board_cards.extend(sampled_cards[begin:])')),
+    }
+    if len(loops) == 1:
+        lp = loops[0]
+        facts['each player gets the next (count - held) cards'] = bool(m.assigns(lp, 'begin + hole_dealing_count - len(hole_cards[i])')) \
+            and bool(m.calls(lp, 'hole_cards[i].extend(sampled_cards[begin:end])'))
+        facts['slices do not overlap (begin = end)'] = m.stmt_pair_order(
+            lp.body, ('assign', '', T.spec('end'), T.spec('begin + hole_dealing_count - len(hole_cards[i])')), ('assign', '', T.spec('begin'), T.spec('end')))
+    else:
+        facts['one loop over the players'] = False
+    missing = [k for k, v in facts.items() if not v]
+    chk.ob('C18.sampling', f'{fi.qualname}:distribution', not missing, fi.loc,
+           'the drawn cards are dealt out in disjoint consecutive slices: to each player what he lacks, the rest to the board',
+           got=f'not found: {missing}' if missing else 'ok')
     ce = mi.functions.get('calculate_equities')
     if ce is None:
         raise AnalysisError('analysis.calculate_equities vanished')
+    mp = [n for n in walk_no_nested(ce.node) if isinstance(n, (ast.Assign, ast.AnnAssign)) and n.value is not None
+          and isinstance(n.value, ast.IfExp) and 'executor' in ast.unparse(n.value)]
+    # (a conditional expression assigned to a name is read as an if statement)
+    ok_mp = any(isinstance(n, ast.If) and T.cond(n.test) in (T.spec('executor is None', boolean=True), T.spec('executor is not None', boolean=True))
+                for n in walk_no_nested(ce.node)) or bool(mp)
+    for n in walk_no_nested(ce.node):
+        if isinstance(n, ast.If) and 'executor' in ast.unparse(n.test):
+            pos, neg = (n.body, n.orelse) if T.cond(n.test) == T.spec('executor is None', boolean=True) else (n.orelse, n.body)
+            ok_mp = bool(pos) and bool(neg) and 'executor.map' in ast.unparse(neg[0]) and ast.unparse(pos[0]).endswith('= map')
+    for n in mp:
+        t, b, o = n.value.test, n.value.body, n.value.orelse
+        if T.cond(t) != T.spec('executor is None', boolean=True):
+            b, o = o, b
+        ok_mp = ast.unparse(b) == 'map' and ast.unparse(o) == 'executor.map'
+    chk.ob('C18.sampling', 'analysis.calculate_equities:mapper', ok_mp, ce.loc,
+           'samples are mapped with the builtin map when no executor is given, with executor.map otherwise')
     want = T.spec('Counter(chain(chain.from_iterable(selection), board_cards))')
     cnt = ctx.m.assigns(ce.node, want)
     flt = []
@@ -300,6 +360,9 @@ def _equities(chk, ctx, mi) -> None:
                     and isinstance(a.targets[0], ast.Name) and a.targets[0].id == src.id]
             src = defs[0].value if len(defs) == 1 else None
         return isinstance(src, ast.Call) and isinstance(src.func, ast.Name) and src.func.id == 'calculate_equities'
+    opp = hs is not None and bool(ctx.m.exprs(hs.node, '[[[]] for _ in range(player_count - 1)]'))
+    chk.ob('C18.shares', 'analysis.calculate_hand_strength:opponents', opp, hs.loc if hs else 'pokerkit/analysis.py',
+           'the hero plays against player_count - 1 opponents with unknown cards')
     ok = hs is not None and any(isinstance(n, ast.Return) and _last_equity(n.value) for n in walk_no_nested(hs.node)) \
         and any(isinstance(n, ast.Call) and isinstance(n.func, ast.Attribute) and n.func.attr == 'append' and n.args
                 and T.norm(n.args[0]) == ('name', 'hole_range') for n in walk_no_nested(hs.node))
@@ -362,3 +425,25 @@ def _statistics(chk, ctx) -> None:
                         except (ValueError, IndexError):
                             ok = False
     chk.ob('C18.statistics', 'Statistics.from_hand_history', ok, fi.loc if fi else st.loc, 'a recorded payoff is finishing stack - starting stack')
+    if fi is not None:
+        m = ctx.m
+        facts = {}
+        fin = [n for n in m.ifs(fi.node, 'hh.finishing_stacks is None') + m.ifs(fi.node, 'hh.finishing_stacks is not None')]
+        facts['finishing stacks: the recorded ones, else those of the replayed final state'] = any(
+            (lambda a, b: bool(m.exprs(ast.Module(body=a, type_ignores=[]), 'tuple(hh)[-1]')) and bool(m.assigns(ast.Module(body=b, type_ignores=[]), 'hh.finishing_stacks')))(
+                *((n.body, n.orelse) if T.cond(n.test) == T.spec('hh.finishing_stacks is None', boolean=True) else (n.orelse, n.body))) for n in fin)
+        pl = [n for n in m.ifs(fi.node, 'hh.players is None') + m.ifs(fi.node, 'hh.players is not None')]
+        facts['players: the recorded names, else nobody'] = any(
+            (lambda a, b: bool(m.assigns(ast.Module(body=a, type_ignores=[]), 'repeat(None)')) and bool(m.assigns(ast.Module(body=b, type_ignores=[]), 'hh.players')))(
+                *((n.body, n.orelse) if T.cond(n.test) == T.spec('hh.players is None', boolean=True) else (n.orelse, n.body))) for n in pl)
+        facts['only named players are recorded'] = any(
+            any(isinstance(c, ast.Call) and isinstance(c.func, ast.Attribute) and c.func.attr == 'append' for c in ast.walk(ast.Module(body=n.body, type_ignores=[])))
+            for n in m.ifs(fi.node, 'player is not None'))
+        missing = [k for k, v in facts.items() if not v]
+        chk.ob('C18.statistics', 'Statistics.from_hand_history:sources', not missing, fi.loc,
+               'payoffs are taken from the recorded finishing stacks (or the replayed hand) and filed under the recorded player names', got=f'not found: {missing}' if missing else 'ok')
+    mg = st.methods.get('merge') if st is not None else None
+    if mg is not None:
+        ok = bool(ctx.m.fors(mg.node, 'statistics')) and bool(ctx.m.calls(mg.node, 'payoffs.extend(sub_statistics.payoffs)')) \
+            and bool(ctx.m.exprs(mg.node, 'Statistics(payoffs=payoffs)'))
+        chk.ob('C18.statistics', 'Statistics.merge', ok, mg.loc, 'merged statistics hold the payoffs of all parts')
